@@ -18,7 +18,7 @@ def queries(tier, kfs):
                 continue
             qs.append(Query('struct%d.%s.overload%d' % (sid, 'single' if single else 'multi', which), 'graph.cpp', 'c03.c',
                             dict(FSV_N=n, FSV_D=d, FSV_SINGLE=single), dict(N=n, D=d, SINGLE=single, STRUCT=sid, WHICH=which),
-                            unwind=max(16, n * (d + 1) + 3), solver='cvc5', timeout=900,
+                            unwind=max(16, n * (d + 1) + 3), solver='race', timeout=900,
                             bounds=dict(N=n, D=d, structure=sid, direction='single' if single else 'multi',
                                         overload=['in-place array', 'returning array', 'in-place scalar', 'returning scalar'][which])))
     return qs
